@@ -22,6 +22,10 @@ EXPLANATION = (
     "links start to the previous end and a close to the last move. R01.7 token languages: FLOAT equals the CSS/SVG 2 "
     "number grammar (DFA equivalence), FLAG is 0|1, COMMAWSP is one or more of comma/XML white space, COMMAND is tried "
     "before SKIP. Not decided: that the resulting absolute coordinates are right for every string (values)."
+    " R01.8 (segment-completing close): in every builder block `if <operand> in ('z', 'Z')` the segment that is"
+    ' built keeps the operands read before, and the replaced operand and every later point are the close point'
+    ' (one name bound to the accessor/helper that resolves the subpath start); a block without a constructor of'
+    " its own must re-bind the operand and it must be the segment's last point."
 )
 TECHNIQUE = (
     "static analysis (no execution): lexer branch summaries by value tracking over the AST; builder callbacks followed per finite scenario (relative?, which operand is 'z', previous segment class) with segment-sequence extraction; token regexes compared as automata (language equivalence)"
@@ -31,7 +35,7 @@ ASSUMPTIONS = [
     "Python's re module matches alternatives left to right and quantifiers greedily (language facts are derived from pattern strings).",
 ]
 EXHAUSTIVE = True
-FLOORS = {"R01.1": 60, "R01.4": 20, "R01.5": 2, "R01.7": 5}
+FLOORS = {"R01.1": 60, "R01.4": 20, "R01.5": 2, "R01.7": 5, "R01.8": 8}
 
 SPEC = {
     "L": (["coord"], "line"),
@@ -54,12 +58,66 @@ def run(ctx):
     ctx.rule("R01.5", "smooth reflection only from a curve of the same degree")
     ctx.rule("R01.6", "connectivity")
     ctx.rule("R01.7", "token languages")
+    ctx.rule("R01.8", "a segment-completing z supplies the subpath start for every coordinate pair it replaces")
+    completing_close(ctx)
     table(ctx)
     rcoord(ctx)
     state_sources(ctx)
     smooth_degree(ctx)
     connectivity(ctx)
     tokens(ctx)
+
+
+# --------------------------------------------------------------------------- R01.8
+def completing_close(ctx):
+    """In a builder, `if <operand> in ("z", "Z"):` is the segment-completing close.  The segment it leads to is built from the
+    operands read so far, and the replaced operand AND every point after it are the close point (one name, bound to the
+    accessor / helper that resolves the subpath start).  The reference for the slot order is the builder's ordinary
+    constructor call (the last one in the function)."""
+    cls = ctx.m.cls("Path", "R01.8")
+    seg_classes = {"Line", "QuadraticBezier", "CubicBezier", "Arc", "Move", "Close"}
+    n = 0
+    for bname in ("line", "quad", "smooth_quad", "cubic", "smooth_cubic", "arc"):
+        fn = ctx.fn("Path.%s" % bname, "R01.8")
+        ctors = [c for c in ast.walk(fn) if isinstance(c, ast.Call) and isinstance(c.func, ast.Name) and c.func.id in seg_classes]
+        ctx.need(ctors, "R01.8", "Path.%s: segment constructor not found" % bname)
+        main = max(ctors, key=lambda c: (c.lineno, c.col_offset))
+        main_names = [a.id if isinstance(a, ast.Name) else None for a in main.args]
+        for s in ast.walk(fn):
+            if not (isinstance(s, ast.If) and isinstance(s.test, ast.Compare) and len(s.test.ops) == 1 and isinstance(s.test.ops[0], ast.In) and isinstance(s.test.left, ast.Name)):
+                continue
+            c = s.test.comparators[0]
+            if not (isinstance(c, (ast.Tuple, ast.List, ast.Set)) and {x.value for x in c.elts if isinstance(x, ast.Constant)} == {"z", "Z"}):
+                continue
+            var = s.test.left.id
+            if var not in main_names:
+                continue
+            k = main_names.index(var)
+            res = [a for a in s.body if isinstance(a, ast.Assign) and len(a.targets) == 1 and isinstance(a.targets[0], ast.Name) and
+                   ((isinstance(a.value, ast.Attribute) and isinstance(a.value.value, ast.Name) and a.value.value.id == "self" and a.value.attr in cls.getters) or
+                    (isinstance(a.value, ast.Call) and isinstance(a.value.func, ast.Attribute) and isinstance(a.value.func.value, ast.Name) and a.value.func.value.id == "self"
+                     and a.value.func.attr in cls.methods and not a.value.args))]
+            ctx.need(len(res) == 1, "R01.8", "Path.%s[%s]: resolution of the close point not found" % (bname, var))
+            z = res[0].targets[0].id
+            own = [c_ for st in s.body for c_ in ast.walk(st) if isinstance(c_, ast.Call) and isinstance(c_.func, ast.Name) and c_.func.id in seg_classes]
+            n += 1
+            cons = "Path.%s[z in place of %s]" % (bname, var)
+            # point slots: the positional arguments that are plain names in the ordinary call, up to the end point (an arc's
+            # radii/rotation/flags between start and end are not points but are read before the end, so they stay)
+            if own:
+                call = own[0]
+                got = [a.id if isinstance(a, ast.Name) else ast.unparse(a) for a in call.args]
+                want = main_names[:k] + [z] * (len(main_names) - k)
+                ok = call.func.id == main.func.id and got == want
+                ctx.ob("R01.8", cons, ok, "builds %s(%s); wanted (%s)" % (call.func.id, ", ".join(map(str, got)), ", ".join(map(str, want))), call.lineno,
+                       "the close point stands for the operand it replaces and for every later point of the segment; earlier operands are kept")
+            else:
+                # no segment of its own: the ordinary constructor below is reached with the operand re-bound to the close point;
+                # that is only complete when the operand is the segment's last point
+                ok = z == var and k == len(main_names) - 1 and not any(isinstance(x, (ast.Return, ast.Continue, ast.Break, ast.Raise)) for st in s.body for x in ast.walk(st))
+                ctx.ob("R01.8", cons, ok, "%s = %s, slot %d of %d, falls through to %s(%s)" % (z, ast.unparse(res[0].value), k + 1, len(main_names), main.func.id, ", ".join(map(str, main_names))),
+                       s.lineno, "the operand must be re-bound to the close point and be the last point of the segment")
+    ctx.need(n >= 8, "R01.8", "fewer segment-completing close blocks than expected (%d)" % n)
 
 
 # --------------------------------------------------------------------------- R01.1
